@@ -21,6 +21,16 @@ Definition valid_at_spec (strict : bool) (now_ns expired valid_until atts : Z) :
        && (signed_ms atts <=? signed_ms valid_until)
        && (signed_ms atts * 1000000 <=? now_ns + seven_days_ms * 1000000).
 
+(* the same rule on the uint64 millisecond values themselves, which is what the property text and
+   the room version 5 rule say (finding F62: the library converts to time.Time through int64, so
+   its rule, valid_at_spec above, differs from this one once a timestamp reaches 2^63) *)
+Definition valid_at_unsigned (strict : bool) (now_ns expired valid_until atts : Z) : bool :=
+  if negb (expired =? 0) then atts <? expired
+  else if negb strict then true
+  else negb (valid_until =? 0)
+       && (atts <=? valid_until)
+       && (atts <=? now_ns / 1000000 + seven_days_ms).
+
 (* a stored key is held inside its validity (no refetch): expired keys never change; a current
    key is refetched once now (ms) has reached valid_until_ts *)
 Definition db_key_final (now_ns expired valid_until : Z) : bool :=
